@@ -125,6 +125,13 @@ func (fx *FnExec) builtin(st *State, in *ssa.Call, b *ssa.Builtin, k cont) {
 		eng.heapSet(st, comp, ite(inplace, hIn, hRe))
 		res := fmt.Sprintf("(ite %s (mk_Slice %s %s (+ %s 1) %s) (mk_Slice %s 0 (+ %s 1) %s))", inplace, ar, of, ln, cp, ref, ln, ncap)
 		res = eng.define(st, in.Name(), SSlice, res)
+		// consequences of the model above, stated directly so that proofs about the contents of
+		// the result need no case split on whether the append reallocated
+		h2 := eng.heapGet(st, comp)
+		j2 := eng.freshName("j")
+		st.assume("(forall ((" + j2 + " Int)) (! (=> (and (<= 0 " + j2 + ") (< " + j2 + " " + ln + ")) (= (select (select " + h2 + " (sl_arr " + res + ")) (idx (sl_off " + res + ") " + j2 + ")) (select (select " + h + " " + ar + ") (idx " + of + " " + j2 + ")))) :pattern ((select (select " + h2 + " (sl_arr " + res + ")) (idx (sl_off " + res + ") " + j2 + ")))))")
+		st.assume("(= (select (select " + h2 + " (sl_arr " + res + ")) (idx (sl_off " + res + ") " + ln + ")) " + x0 + ")")
+		st.assume("(= (sl_len " + res + ") (+ " + ln + " 1))")
 		k(st, []Val{{T: res, S: SSlice, GT: in.Type()}})
 	case "delete":
 		m := fx.val(st, c.Args[0])
@@ -183,7 +190,7 @@ func (eng *Engine) ours(fn *ssa.Function) bool {
 func (fx *FnExec) applyContract(st *State, in *ssa.Call, fn *ssa.Function, fc *FuncContract, args []Val, k cont) {
 	eng := fx.eng
 	pre := st.fork()
-	env := &Env{fx: fx, cur: st, old: st, vars: map[string]Val{}}
+	env := &Env{fx: fx, cur: st, old: st, vars: map[string]Val{}, fc: fc}
 	if fn.Pkg != nil {
 		env.pkg = fn.Pkg.Pkg
 	}
@@ -210,7 +217,7 @@ func (fx *FnExec) applyContract(st *State, in *ssa.Call, fn *ssa.Function, fc *F
 	}
 	for _, c := range fc.Panics {
 		if f, ok := trc(env, c); ok {
-			fx.emit(st, &Obligation{Kind: "pre", Name: site + ":nopanic." + c.Name, Props: c.Props, Goal: not(f)})
+			fx.emit(st, &Obligation{Kind: "pre", Name: site + ":nopanic." + c.Name, Props: c.Props, Goal: not(f), Safety: true})
 			st.assume(not(f))
 		}
 	}
@@ -272,6 +279,7 @@ func (fx *FnExec) applyContract(st *State, in *ssa.Call, fn *ssa.Function, fc *F
 		}
 	}
 	oldAlloc := st.alloc
+	dirtyCallee := eng.dirtyFunc(fn)
 	if touch["@alloc"] {
 		na := eng.fresh(st, "alloc", SInt)
 		st.assume("(>= " + na + " " + st.alloc + ")")
@@ -291,6 +299,10 @@ func (fx *FnExec) applyContract(st *State, in *ssa.Call, fn *ssa.Function, fc *F
 			n := eng.heapHavoc(st, c)
 			p := eng.freshName("p")
 			cond := "(<= " + p + " " + oldAlloc + ")"
+			if dirtyCallee[c] && len(writes[c]) == 0 && !fc.Trusted {
+				// the callee may write existing objects of this component and its contract does not say which: no frame
+				continue
+			}
 			for _, w := range writes[c] {
 				cond = and(cond, not("(= "+p+" "+w.ref+")"))
 			}
@@ -325,7 +337,13 @@ func (fx *FnExec) applyContract(st *State, in *ssa.Call, fn *ssa.Function, fc *F
 		st.assume(fx.allocatedInv(st, v))
 		res = append(res, v)
 	}
-	post := &Env{fx: fx, cur: st, old: pre, vars: map[string]Val{}, pkg: env.pkg}
+	// the callee's function-local ghosts are existentially quantified for the caller
+	for _, g := range fc.Ghosts {
+		key := "fg:" + fc.Key + ":" + g
+		pre.ghost[key] = eng.fresh(st, "ghostpre_"+g, "(Array Int Int)")
+		st.ghost[key] = eng.fresh(st, "ghostres_"+g, "(Array Int Int)")
+	}
+	post := &Env{fx: fx, cur: st, old: pre, vars: map[string]Val{}, pkg: env.pkg, fc: fc}
 	for kx, v := range env.vars {
 		post.vars[kx] = v
 	}
